@@ -49,7 +49,7 @@ rc, out, _ = run("cargo test --workspace --offline --no-fail-fast", cwd=wt)
 res["confirmed"]["suite_passes_with_mutant"] = (rc == 0)
 # 4. the checks against the mutated worktree
 for c in checks:
-    rc, out, dt = run(f"/verif/check {c} quick", cwd="/verif", extra_env={"VERIF_REPO": wt, "VERIF_SEED": "1"})
+    rc, out, dt = run(f"{os.environ.get('VERIF_SNAP', '/verif')}/check {c} quick", cwd=os.environ.get("VERIF_SNAP", "/verif"), extra_env={"VERIF_REPO": wt, "VERIF_SEED": "1"})
     lines = [l for l in out.splitlines() if l.startswith("VIOLATION") or l.startswith("violation") or "seed=" in l or "inconclusive" in l]
     res["checks"][c] = {"exit": rc, "seconds": round(dt, 1), "lines": [l[:400] for l in lines[:6]]}
 clean()
